@@ -39,7 +39,12 @@ MergeAll(db, exclude) == LET ord == MergeOrder(db)  r == Merge_Alg2(ord, Default
 
 Bed(db, t) == LET f == Get(db, t)
                   r == Bed12_Alg(f, KidsAnyLevel(db, t, T_exon), KidsAnyLevel(db, t, T_CDSx), TRUE, T_ID, <<48, 44, 48, 44, 48>>)
-              IN [id |-> t, r |-> r, decl |-> Bed12_Decl(f, KidsAnyLevel(db, t, T_exon), r)]
+                  \* the same transcript asked again with other arguments: blocks = CDS, thick = exon, name from Name, a colour with blanks (stripped);
+                  \* and with thin_featuretype (thick_featuretype=None): the thick fields come from the END of the first and the START of the last thin feature
+                  r2 == Bed12_Alg(f, KidsAnyLevel(db, t, T_CDSx), KidsAnyLevel(db, t, T_exon), TRUE, T_Name, <<50, 53, 53, 44, 48, 44, 48>>)
+                  r3 == Bed12_Alg(f, KidsAnyLevel(db, t, T_exon), KidsAnyLevel(db, t, T_exon), FALSE, T_ID, <<48, 44, 48, 44, 48>>)
+              IN [id |-> t, r |-> r, decl |-> Bed12_Decl(f, KidsAnyLevel(db, t, T_exon), r),
+                  r2 |-> r2, decl2 |-> Bed12_Decl(f, KidsAnyLevel(db, t, T_CDSx), r2), r3 |-> r3, decl3 |-> Bed12_Decl(f, KidsAnyLevel(db, t, T_exon), r3)]
 VARIABLES i, done
 Init == i \in 1..Len(Data.models) /\ done = FALSE
 Next == /\ ~done /\ done' = TRUE /\ i' = i
